@@ -282,8 +282,22 @@ func c03GenCmds(t *rapid.T) []c03Cmd {
 	n := rapid.IntRange(3, 40).Draw(t, "ncmds")
 	keys := []string{"k0", "k1", "k2", "k3", "k4", "k5", "k6", "k7", "k8", "k9"}
 	var out []c03Cmd
+	// "big" cases: one or two values sized so that the frame ends within +-50 bytes of a multiple of 8 KiB
+	// (the recovery scan reads the file in 8 KiB pieces; whatever follows a damaged big frame then starts
+	// next to a piece boundary)
+	big := map[int]int{}
+	if rapid.IntRange(0, 3).Draw(t, "bigcase") == 0 {
+		for j := rapid.IntRange(1, 2).Draw(t, "nbig"); j > 0; j-- {
+			big[rapid.IntRange(0, n-2).Draw(t, "bigidx")] = 8192*rapid.IntRange(1, 2).Draw(t, "bigm") - 41 + rapid.IntRange(-50, 50).Draw(t, "bigdelta")
+		}
+	}
 	for i := 0; i < n; i++ {
 		c := c03Cmd{Key: rapid.SampledFrom(keys).Draw(t, "key")}
+		if sz, ok := big[i]; ok {
+			c.Val = append(bytes.Repeat([]byte{'x'}, sz), []byte(fmt.Sprintf("#%d", i))...)
+			out = append(out, c)
+			continue
+		}
 		if rapid.IntRange(0, 6).Draw(t, "del") == 0 {
 			c.Del = true
 		} else {
@@ -308,7 +322,16 @@ func c03GenCmds(t *rapid.T) []c03Cmd {
 func c03GenDamage(t *rapid.T, fileLen int, ext [][2]int) c03Damage {
 	// position: inside a header field of a chosen frame (70%) or anywhere
 	pos := 0
-	if rapid.IntRange(0, 9).Draw(t, "poskind") < 7 && len(ext) > 0 {
+	var bigFrames []int
+	for i, e := range ext {
+		if e[1]-e[0] > 4000 {
+			bigFrames = append(bigFrames, i)
+		}
+	}
+	if len(bigFrames) > 0 && rapid.Bool().Draw(t, "hit-big") {
+		f := rapid.SampledFrom(bigFrames).Draw(t, "bigframe")
+		pos = ext[f][0] + rapid.IntRange(0, 60).Draw(t, "bigoff")
+	} else if rapid.IntRange(0, 9).Draw(t, "poskind") < 7 && len(ext) > 0 {
 		f := rapid.IntRange(0, len(ext)-1).Draw(t, "frame")
 		field := rapid.SampledFrom([]int{0, 1, 2, 3, 4, 5, 6, 7, 8, 9, 10, 11, 12}).Draw(t, "field")
 		pos = ext[f][0] + field
